@@ -177,7 +177,7 @@ def run_evaluate(kc: KernelCase, DIM, joint, opts, stats, refcache):
     """Run the evaluate kernel on one joint structure; returns (findings, info)."""
     out = []
     vals, env = make_env(joint)
-    m = Machine(generic=True, budget=step_budget(DIM, joint), lenient_uninit=True)
+    m = Machine(generic=True, budget=step_budget(DIM, joint), lenient_uninit=True, lenient_overflow=True)
     fn = kc.fns["evaluate"]
     args, ts_out, odims = kc.build_args(m, fn, DIM, joint, vals)
     case = None
@@ -201,6 +201,10 @@ def run_evaluate(kc: KernelCase, DIM, joint, opts, stats, refcache):
         if ek == "uninit-read":
             out.append(finding(["C05"], "fault", f"evaluate kernel read uninitialised {em}", cj(),
                                fault="uninit-read", kernel="evaluate"))
+            break
+    for ek, em in m.events:
+        if ek in ("int-overflow", "int-literal-range"):
+            out.append(finding(["C05"], "fault", f"evaluate kernel: {em}", cj(), fault=ek, kernel="evaluate"))
             break
     for ek, em in m.events:
         if ek == "shadow-divergence":
